@@ -218,3 +218,11 @@ def classes(r):
 def nontrivial(r):
     cl = classes(r)
     return "op:sch:e" in cl and "op:del:e" in cl and ("op:dtags:c" in cl or "op:exec:c" in cl)
+
+
+# ---- asyncio share
+from .. import aiomix  # noqa: E402
+from . import c18 as _c18  # noqa: E402
+
+aiomix.install(globals(), 0.2, lambda rng: aiomix.stream(rng, _c18.scenarios), aiomix.c11_specs,
+               note="C18-style histories; Spec at every quiescent point: registered = created - deleted - exhausted, delete_job of an unregistered job raises and changes nothing, queries are pure")
